@@ -24,7 +24,7 @@ from gsvc import symrun
 from contracts import krige_common as kc
 from contracts import axioms as ax
 from contracts.krige_common import lemma, quiet, arr, dot, delta, terms
-from contracts.c05 import (BND, FN_CALL, FN_MAT, hint_cor0, aniso_iso_lemma, raw_call, not_close, spec_quadform,
+from contracts.c05 import (MAXP, MAXP_FORK, BND, FN_CALL, FN_MAT, hint_cor0, aniso_iso_lemma, raw_call, not_close, spec_quadform,
                            _rhs_lemmas)
 
 P = "C06"
@@ -157,14 +157,14 @@ def _val_req(ctx, S):
 
 
 @contract(P, "Krige.__call__/exact-at-conditioning-points", params=_exact_params(), functions=FN_CALL + FN_MAT,
-          bounded=BND, nsamples=2, search=40, timeout=20)
+          bounded=BND, nsamples=2, search=40, timeout=20, max_paths=MAXP)
 @kc.guarded
 def exact_interpolation(ctx, variant, n, dim, mode, i, norm):
     _exact_body(ctx, variant, n, dim, mode, i, norm)
 
 
 @contract(P, "Krige.__call__/exact-at-conditioning-points(dim3)", params=_exact_params(True), functions=FN_CALL + FN_MAT,
-          bounded=BND, nsamples=2, search=40, timeout=20, tiers=("thorough",))
+          bounded=BND, nsamples=2, search=40, timeout=20, tiers=("thorough",), max_paths=MAXP)
 @kc.guarded
 def exact_interpolation3(ctx, variant, n, dim, mode, i, norm):
     _exact_body(ctx, variant, n, dim, mode, i, norm)
@@ -176,7 +176,7 @@ def exact_interpolation3(ctx, variant, n, dim, mode, i, norm):
 @contract(P, "Krige.__call__/variance-nonnegative",
           params=[{"variant": v, "dim": d, "err": e} for v in ALLV for d in (1, 2) for e in ("nugget", "vector", "exact")
                   if kc.min_points(v, d) <= 3 and not (d == 2 and e == "vector")],
-          functions=FN_CALL, bounded=BND, nsamples=2, search=40)
+          functions=FN_CALL, bounded=BND, nsamples=2, search=40, max_paths=MAXP)
 @kc.guarded
 def variance_nonneg(ctx, variant, dim, err):
     kc.reset()
@@ -195,7 +195,7 @@ def variance_nonneg(ctx, variant, dim, err):
 @contract(P, "Simple.__call__/variance<=sill",
           params=[{"variant": v, "n": n, "dim": d, "err": e} for v in ("simple", "detrended") for (n, d) in ((2, 1), (3, 1), (2, 2))
                   for e in ("nugget", "scalar", "vector", "exact")],
-          functions=FN_CALL, bounded=BND, nsamples=3, search=40)
+          functions=FN_CALL, bounded=BND, nsamples=3, search=40, max_paths=MAXP)
 @kc.guarded
 def variance_le_sill(ctx, variant, n, dim, err):
     """simple kriging: A = C + diag(err) is a covariance matrix, positive definite for a positive
@@ -225,7 +225,7 @@ def variance_le_sill(ctx, variant, n, dim, err):
 @contract(P, "Krige.cond_err.setter/explicit-errors-rejected-in-exact-mode",
           params=[{"variant": v, "kind": k} for v in ("simple", "ordinary", "universal", "extdrift", "detrended")
                   for k in ("scalar", "vector")],
-          functions=["krige/base.py:Krige.cond_err", "krige/base.py:Krige.set_condition"], nsamples=2, search=20)
+          functions=["krige/base.py:Krige.cond_err", "krige/base.py:Krige.set_condition"], nsamples=2, search=20, max_paths=MAXP)
 @kc.guarded
 def cond_err_exact(ctx, variant, kind):
     kc.reset()
@@ -278,7 +278,7 @@ def cond_err_exact(ctx, variant, kind):
 @contract(P, "Krige(pseudo_inv=True)/coincident-points-act-as-one-point-with-mean-value",
           params=[{"layout": l} for l in ("simple-dim1", "ordinary-dim1", "ordinary-dim2")],
           functions=["krige/base.py:Krige._inv"], bounded="native, 3 layouts (2 distinct points + 1 duplicate, no nugget, "
-          "pinv; sampled positions and values)", nsamples=8, search=20)
+          "pinv; sampled positions and values)", nsamples=8, search=20, max_paths=MAXP)
 @kc.guarded
 def duplicates_native(ctx, layout):
     """natively checked only (status bounded_ok, never counted as proved): with the pseudo-inverse
